@@ -179,6 +179,30 @@ class SimIter:
         return f'SimIter({self._items!r}{", inf" if self._inf else ""})'
 
 
+class SimNum:
+    """a number-like collaborator: every arithmetic operator is a point (so a fault can be raised
+    by the operand of a T-arithmetic step)"""
+    __slots__ = ('_k', '_sid', '_v')
+
+    def __init__(self, k, sid, v):
+        self._k, self._sid, self._v = k, sid, v
+
+    def _op(self, name, other, f):
+        self._k.point(f'{self._sid}.{name}', 'arith', short(other))
+        return f(self._v, other)
+
+    def __add__(self, o): return self._op('add', o, lambda a, b: a + b)
+    def __sub__(self, o): return self._op('sub', o, lambda a, b: a - b)
+    def __mul__(self, o): return self._op('mul', o, lambda a, b: a * b)
+    def __truediv__(self, o): return self._op('div', o, lambda a, b: a / b)
+    def __mod__(self, o): return self._op('mod', o, lambda a, b: a % b)
+    def __pow__(self, o): return self._op('pow', o, lambda a, b: a ** b)
+    def __neg__(self): return self._op('neg', None, lambda a, b: -a)
+
+    def __repr__(self):
+        return f'SimNum({self._v!r})'
+
+
 class Obj:
     """plain attribute object with a __dict__ and a deterministic repr"""
     def __init__(self, **kw):
